@@ -206,6 +206,9 @@ func (m *tableMon) lockQueueProbes() {
 		} else {
 			m.c.Viol("C08", "C08.ready_group_deadlocked", facts, "between hands: a ready group's loop is deadlocked on its own RWMutex (read lock taken twice with a writer queued in between); callers of that group hang, one of them holding the engine lock")
 		}
+		// the table is frozen for good: nothing more can be learned from this run
+		m.c.stopped = true
+		m.c.Sch.RequestStop()
 	}
 	for _, fn := range m.c.Sch.LockWaiters() {
 		switch {
